@@ -209,7 +209,8 @@ def check_graph(ctx, f, rep):
 def r4_renewal_argument(ctx, f, rep):
     rep.rule('C18-R4', 'supporting facts for the renewal gate: handle_self_update(Down) either renews the identity (so the peer '
                        'sees an active, conflict-winning sender) or leaves the instance Undead (C10-R4); TurnUndead carries no '
-                       'payload (C07-R3), so nothing content-triggered rides on it')
+                       'payload (C07-R3), so nothing content-triggered rides on it; a sender whose identity the stored '
+                       'one does not beat replaces it (C01-R3), so the renewed sender is active afterwards')
     from . import c10, c07
     from .c09 import _Rename
     c10.r4_rejoin_or_defunct(ctx, f, _Rename(rep, 'C10-R4', 'C18-R4'))
@@ -218,6 +219,37 @@ def r4_renewal_argument(ctx, f, rep):
     from . import c17
     c17.r3_accept_payload(ctx, f, _Rename(rep, 'C17-R3', 'C18-R4'))
     tabs = c07.tables(ctx, f, _Rename(rep, 'C07-R3', 'C18-R4'))
+    # the renewal gate terminates only if the renewed (or restarted) sender is then accepted: a stored identity is
+    # replaced unless it itself wins the conflict - asking the newcomer instead keeps an incomparable one out forever,
+    # and every datagram of it is answered with TurnUndead (C01-R3 re-run)
+    from . import c01
+    c01.r3_writers(ctx, f, _Rename(rep, 'C01-R3', 'C18-R4'))
+    # ... and the sender is recorded before anything is decided about it, in every connection state: a defunct instance
+    # that only looks the sender up never learns a renewed identity and answers each renewal with another TurnUndead
+    hd = f.fn('Foca::handle_data')
+    REACT = ('Foca::send_message', 'Foca::handle_self_update', 'Foca::apply_many', 'Foca::handle_custom_broadcasts',
+             'probe::Probe::receive_ack', 'probe::Probe::receive_indirect_ack', 'member::Members::is_active')
+    n = 0
+    for p in ctx.paths(f, hd, 'ctor'):
+        h, src, msg = c12.header_parts(p)
+        if h is None:
+            continue
+        applied = False
+        for e in p.events:
+            if e['kind'] != 'call':
+                continue
+            if e['res'] == 'Foca::apply_update':
+                m = e['args'][1]
+                if m[0] == 'agg' and q.agg_field(m, 'id') == src and q.is_variant(q.agg_field(m, 'state'), 'State', 'Alive'):
+                    applied = True
+            elif e['res'] in REACT:
+                n += 1
+                if not applied:
+                    rep.violation('C18-R4', hd.nname, 'reacts-before-recording-sender:' + e['res'].split('::')[-1],
+                                  'handle_data reacts to a datagram (%s) on a path that has not recorded its sender as '
+                                  'Alive(src, src_incarnation) first' % e['res'], site=e['span'])
+                    break
+    rep.floor('C18-R4', n, 100, 'reactions of handle_data that follow the recording of the sender')
 
 
 def check(ctx):
